@@ -8,6 +8,12 @@ COQ_TARGETS = ["Properties/C08.vo"]
 DISC = {0: [], 1: [0xA5], 2: [0xEF, 0xBE], 4: [0xEF, 0xBE, 0xAD, 0xDE], 8: [1, 2, 3, 4, 5, 6, 7, 8],
         16: [16, 15, 14, 13, 12, 11, 10, 9, 8, 7, 6, 5, 4, 3, 2, 1]}
 PID = {0: 10, 1: 11, 2: 12, 4: 14, 8: 18, 16: 26}
+# account types whose discriminant IS the all-0xFF pattern the framework writes when it closes an account (keys 101 / 102 /
+# 108 = widths 1 / 2 / 8): owner + discriminant match, so they are admitted like any other type
+DISC.update({101: [255], 102: [255, 255], 108: [255] * 8})
+PID.update({101: 31, 102: 32, 108: 38})
+WIDTH = {0: 0, 1: 1, 2: 2, 4: 4, 8: 8, 16: 16, 101: 1, 102: 2, 108: 8}
+VARIANTS = (0, 1, 2, 4, 8, 16, 101, 102, 108)
 E_OWNER = 23 << 32
 E_SMALL = 5 << 32
 E_BORROW = 12 << 32
@@ -33,7 +39,7 @@ def _case(w, owner, wr, cb, cbm, cl, data, lam=0):
     """lam: class of the account's balance (0: 5000, 1: ZERO, 2: u64::MAX, 3: 1 lamport) - state the admission decision
     must not depend on; it rides in the can-borrow code (cb = 1 + 2 * lam), which the model reads as a boolean"""
     cbc = (1 + 2 * lam) if (cb and not cl) else int(bool(cb))
-    return [w] + DISC[w] + [PID[w]] * 32 + owner + [int(wr), cbc, int(cbm), int(cl)] + data
+    return [WIDTH[w]] + DISC[w] + [PID[w]] * 32 + owner + [int(wr), cbc, int(cbm), int(cl)] + data
 
 
 def gen_cases(rng, tier):
@@ -45,7 +51,7 @@ def gen_cases(rng, tier):
         cases.append(("e%d" % n, c))
         n += 1
 
-    for w in (0, 1, 2, 4, 8, 16):
+    for w in VARIANTS:
         pid = [PID[w]] * 32
         body = [3, 0, 0, 0, 7, 8, 9]
         good = DISC[w] + body
@@ -55,15 +61,15 @@ def gen_cases(rng, tier):
             o[bit // 8] ^= 1 << (bit % 8)
             owners.append(o)
         datas = [good]
-        for ln in range(0, w + 4):
+        for ln in range(0, WIDTH[w] + 4):
             datas.append((DISC[w] + [0] * 8)[:ln])
-        for pos in range(w):
+        for pos in range(WIDTH[w]):
             for dv in (1, 0x80):
                 d = list(good)
                 d[pos] ^= dv
                 datas.append(d)
-        datas.append([255] * w)
-        datas.append([255] * w + body)
+        datas.append([255] * WIDTH[w])
+        datas.append([255] * WIDTH[w] + body)
         datas.append(DISC[w] + [200, 0, 0, 0, 1])          # body too short for its length
         # owners x good data, all flags
         for o in owners:
@@ -85,11 +91,11 @@ def gen_cases(rng, tier):
                             add(_case(w, o, wr, cb, cbm, 0, d, lam))
     extra = 300 if tier == "quick" else 30000
     for _ in range(extra):
-        w = rng.choice([0, 1, 2, 4, 8, 16])
+        w = rng.choice(list(VARIANTS))
         pid = [PID[w]] * 32
         o = pid if rng.chance(3, 4) else rng.bytes(32)
         ln = rng.range(0, 40)
-        d = (DISC[w] if rng.chance(3, 4) else rng.bytes(w)) + rng.bytes(ln)
+        d = (DISC[w] if rng.chance(3, 4) else rng.bytes(WIDTH[w])) + rng.bytes(ln)
         if rng.chance(1, 2):
             k = rng.range(0, 20)
             d = d[:len(DISC[w])] + [k, 0, 0, 0] + rng.bytes(k)
